@@ -122,12 +122,12 @@ func genClientHSCase(t *rapid.T) ClientHSCase {
 		r.Reason = "Whatever"
 	}
 	if ok(1, "upgrade_ok") {
-		r.Upgrade = rapid.SampledFrom([][]string{{"websocket"}, {"WebSocket"}, {"WEBSOCKET"}, {"foo, websocket"}, {"websocket , bar"}, {"foo", "websocket"}}).Draw(t, "upg")
+		r.Upgrade = rapid.SampledFrom([][]string{{"websocket"}, {"WebSocket"}, {"WEBSOCKET"}, {"foo, websocket"}, {"websocket , bar"}, {"foo", "websocket"}, {"x~y, websocket"}, {"a`b,\tWebSocket"}, {"!#$%&'*+-.^_`|~, websocket"}, {"~", "websocket, `"}}).Draw(t, "upg")
 	} else {
 		r.Upgrade = rapid.SampledFrom([][]string{nil, {"websockets"}, {"web socket"}, {"xwebsocket"}, {"h2c"}, {""}}).Draw(t, "upg_bad")
 	}
 	if ok(2, "conn_ok") {
-		r.Conn = rapid.SampledFrom([][]string{{"Upgrade"}, {"upgrade"}, {"UPGRADE"}, {"keep-alive, Upgrade"}, {"Upgrade\t,x"}, {"foo", "upgrade"}}).Draw(t, "conn")
+		r.Conn = rapid.SampledFrom([][]string{{"Upgrade"}, {"upgrade"}, {"UPGRADE"}, {"keep-alive, Upgrade"}, {"Upgrade\t,x"}, {"foo", "upgrade"}, {"x~y, Upgrade"}, {"a`b,\tupgrade"}, {"!#$%&'*+-.^_`|~, Upgrade"}, {"~", "upgrade, `"}}).Draw(t, "conn")
 	} else {
 		r.Conn = rapid.SampledFrom([][]string{nil, {"close"}, {"upgraded"}, {"keep-alive"}, {"up grade"}, {""}}).Draw(t, "conn_bad")
 	}
